@@ -58,6 +58,8 @@ class Beta:
         kp = rng.choice(KEY_POOLS)
         self.keys = kp
         self.wrapper = rng.choice(WRAPPERS)
+        # how list / dict displays are laid out: plain, with a trailing comma, one element per line (black style)
+        self.display = rng.choice(["plain", "plain", "trailing", "multiline"])
         self.site_wrapper: dict = {}
         self.name = "atoms=%r keys=%r wrap=%s carrier=%s" % (self.atoms, self.keys[:3], self.wrapper, carrier)
 
@@ -116,10 +118,14 @@ def src_text(beta: Beta, op: str, src, site=None) -> str:
         return beta.entry_text(x, site)
     if op in ("eq", "le", "ge", "none"):
         return et(0, e[0])
-    if op == "in":
-        return "[" + ", ".join(et(j, x) for j, x in enumerate(e)) + "]"
-    if op == "dict":
-        return "{" + ", ".join("%r: %s" % (beta.key(x["k"]), et(j, x)) for j, x in enumerate(e)) + "}"
+    if op in ("in", "dict"):
+        items = [et(j, x) if op == "in" else "%r: %s" % (beta.key(x["k"]), et(j, x)) for j, x in enumerate(e)]
+        o, c = ("[", "]") if op == "in" else ("{", "}")
+        if items and beta.display == "trailing":
+            return o + ", ".join(items) + "," + c
+        if items and beta.display == "multiline":
+            return o + "\n" + "".join("        %s,\n" % i for i in items) + "    " + c
+        return o + ", ".join(items) + c
     raise ValueError(op)
 
 
